@@ -125,6 +125,11 @@ def tuc2 (pos12 : Iso2 K) (m : Manifold2 K) (thr dsq : K) : Bool × Manifold2 K 
 def cos1deg : K := Num.ofRat (99984769515 / 100000000000)
 def distSqThreshold : K := lit 1 1000000
 
+/-- `ContactManifold::try_update_contacts(pos12)`: the documented thresholds, `DOT_THRESHOLD = COS_1_DEGREES`
+and `DIST_SQ_THRESHOLD = 1.0e-6`. -/
+def tuc3Default (pos12 : Iso3 K) (m : Manifold3 K) : Bool × Manifold3 K := tuc3 pos12 m cos1deg distSqThreshold
+def tuc2Default (pos12 : Iso2 K) (m : Manifold2 K) : Bool × Manifold2 K := tuc2 pos12 m cos1deg distSqThreshold
+
 /-! ## `find_deepest_contact` -/
 
 /-- the loop `for pt in &self.points { if pt.dist < deepest.dist { deepest = pt } }`, on the list of
